@@ -254,6 +254,7 @@ def _(self, data: Str, encoder: Obj("Encoder")):
 @contract("asn1tools/codecs/per.py", "to_byte_array", props=["C05", "C08"])
 def _(num: Nat, number_of_bits: Int) -> ByteArray:
     # ceil(number_of_bits / 8) octets of num, most significant first
+    native(domain=number_of_bits <= 4096)      # generated inputs: the loop runs number_of_bits / 8 times
     ensures(len(result) == (0 if number_of_bits <= 0 else (number_of_bits + 7) // 8))
     loop(0, invariant=[num >= 0, len(byte_array) * 8 + number_of_bits == old(number_of_bits),
                        number_of_bits > -8 or (old(number_of_bits) <= 0 and len(byte_array) == 0)],
